@@ -111,6 +111,11 @@ def pressure_function_rules(chk, sol):
                                     function=solve["full"], construct="%s continuity %s" % (kind, K))
     chk.floor("N2", n2, 8)
     # N7: star velocity
+    # a helper of the class that performs the final sampling is read in place
+    solve = C.with_inlined_helpers(solve, [m_ for m_ in sol.unit.methods_of(sol.cls) if m_.get("body") is not None and
+                                           m_["name"] not in ("sample_right_state", "sample_left_state", "fb", "fprimeb", "gb",
+                                                              "get_soundspeed", "solve_vacuum") and
+                                           any(C.is_call(x, fn=E + "sample_right_state") for x in C.walk_stmt(m_["body"]))])
     sr = [x for x in C.walk_stmt(solve["body"]) if C.is_call(x, fn=E + "sample_right_state")]
     sl = [x for x in C.walk_stmt(solve["body"]) if C.is_call(x, fn=E + "sample_left_state")]
     if len(sr) != 1 or len(sl) != 1:
@@ -243,9 +248,15 @@ def residual_discipline(chk, sol):
         return [(None, frozenset(stale))]
     ex = C.explore(g, frozenset(), tr)
     for node in g.nodes:
-        if node.kind != "branch":
+        # a test is a branch condition, or a comparison kept in a bool local first (`const bool use_brent = ...`)
+        if node.kind == "branch":
+            exprs_ = [node.ast]
+        elif node.kind == "decl":
+            exprs_ = [d["init"] for d in node.ast["d"] if d.get("init") is not None and
+                      (d.get("t") or "").replace("const ", "").strip() == "bool"]
+        else:
             continue
-        reads = {C.ref_key(x) for x in C.walk(node.ast) if x.get("k") == "Ref"}
+        reads = {C.ref_key(x) for e_ in exprs_ for x in C.walk(e_) if x.get("k") == "Ref"}
         for kk in pair:
             if kk in reads:
                 n += 1
